@@ -746,6 +746,63 @@ def private_name_as_outer_input_specs():
     return out
 
 
+def hidden_node_consistency(ctx):
+    """Nodes declared with hide=True are left out of the diagram. Whatever else that means, the diagram data stays
+    self-consistent: in every expansion state and output mode of the interactive view, and in the Mermaid source, every
+    edge endpoint is a node declared in that state. Shapes: a hidden first / middle / last node of a chain, a hidden
+    node that is the only consumer of an input, a hidden node inside a nested graph, a hidden gate."""
+    import re
+
+    from hypergraph import FunctionNode, Graph, IfElseNode
+    from hypergraph.viz.renderer import render_graph
+
+    def fn(name, params, out, hide=False):
+        src = f"def {name}({', '.join(params)}):\n    return 0\n"
+        ns = {}
+        exec(src, ns)  # noqa: S102 - tiny generated bodies
+        return FunctionNode(ns[name], name=name, output_name=out, hide=hide)
+
+    shapes = {
+        "hidden-first": lambda: Graph([fn("hf", ["x"], "a", True), fn("g", ["a", "y"], "r")], name="h1"),
+        "hidden-middle": lambda: Graph([fn("f", ["x"], "a"), fn("hm", ["a"], "b", True), fn("g", ["b"], "r")], name="h2"),
+        "hidden-last": lambda: Graph([fn("f", ["x"], "a"), fn("hl", ["a", "z"], "r", True)], name="h3"),
+        "hidden-inside-nested": lambda: Graph([Graph([fn("p", ["x"], "m", True), fn("q", ["m", "w"], "n")], name="inner").as_node(), fn("use", ["n"], "r")], name="h4"),
+        "hidden-gate": lambda: Graph([IfElseNode(lambda x: True, when_true="a", when_false="b", name="pick", hide=True), fn("a", ["x"], "ra"), fn("b", ["x"], "rb")], name="h5"),
+    }
+    for label, mk in shapes.items():
+        try:
+            g = mk()
+        except Exception as e:  # noqa: BLE001
+            ctx.inconc(f"hidden-node shape {label} not buildable: {e!r}")
+            continue
+        case = {"program": f"hide=True: {label}"}
+        r = render_graph(g.to_flat_graph(), depth=0)
+        nbs, ebs = r["meta"]["nodesByState"], r["meta"]["edgesByState"]
+        for key in sorted(set(nbs) & set(ebs)):
+            ids_ = {n_["id"] for n_ in nbs[key]}
+            ctx.obs["hidden_node_states_checked"] += 1
+            for e_ in ebs[key]:
+                ctx.obs["edges_checked"] += 1
+                for end in (e_["source"], e_["target"]):
+                    if end not in ids_:
+                        ctx.violation("C20:edge-endpoint-undeclared:hidden-node", f"{label}, state {key}: edge {e_['source']} -> {e_['target']} refers to {end!r}, which is not a node of that state (hidden nodes are left out)", {**case, "state": key})
+                        break
+        for depth in (0, 1, 2):
+            for sep in (False, True):
+                try:
+                    src = str(g.to_mermaid(depth=depth, separate_outputs=sep))
+                except Exception as e:  # noqa: BLE001
+                    ctx.violation("C20:mermaid-raised:hidden-node", f"{label}: to_mermaid(depth={depth}, separate_outputs={sep}) raised {e!r}", case)
+                    continue
+                ctx.obs["mermaid_checked"] += 1
+                declared = set(re.findall(r"^\s*(?:subgraph\s+)?([A-Za-z0-9_]+)\s*[\[\(\{]", src, re.M))
+                for a_, b_ in re.findall(r"^\s*([A-Za-z0-9_]+)\s*-[-.]+>(?:\|[^|]*\|)?\s*([A-Za-z0-9_]+)\s*$", src, re.M):
+                    for end in (a_, b_):
+                        if end not in declared:
+                            ctx.violation("C20:mermaid-endpoint-undeclared:hidden-node", f"{label}, Mermaid depth {depth} sep={sep}: edge {a_} --> {b_} refers to undeclared {end!r}", case)
+    ctx.case({"directed": "hidden-nodes"}, True)
+
+
 def run(ctx):
     n = 400 if ctx.tier == "quick" else 9000
     core.WARM_P = 0.0
@@ -778,6 +835,8 @@ def run(ctx):
         if (f"{inst}/clean", f"{inst}/tokenize") not in set(flat.edges()):
             ctx.violation("C20:flat-inner-edge-missing", f"the same Graph nested twice: instance {inst} lacks its inner edge clean -> tokenize in to_flat_graph()", {"program": "same graph nested twice"})
     ctx.case({"directed": "same-graph-twice"}, True)
+    if ctx.shard[0] == 0:
+        hidden_node_consistency(ctx)
     directed = (shadowed_substring_specs() + colliding_id_specs() + exclusive_container_specs() + private_name_as_outer_input_specs()) if ctx.shard[0] == 0 else []
     for i in range(n + len(directed)):
         spec = directed[i - n] if i >= n else gen_viz_graph(ctx.rng)
